@@ -160,10 +160,85 @@ def autodetect_obligation(rep, ctx, maxlen=4):
 
 
 def add(rep, ctx):
-    for fn in (count_obligation, autodetect_obligation):
+    for fn in (count_obligation, autodetect_obligation, group_header_obligation):
         try:
             fn(rep, ctx)
         except Inconclusive as ex:
             o = Obligation(fn.__name__, "E2 mirsym/z3")
             o.verdict, o.detail = "inconclusive", str(ex)
             rep.add(o)
+
+
+def group_header_obligation(rep, ctx):
+    """The group header line `<hash>, <len> B (..) * <count>:` is read back exactly: read_group_header takes the hash from capture 1
+    with FileHash::from_str, the length from capture 2 parsed as u64 (a parser that goes through floating point - FileLen's own
+    FromStr accepts units - loses the low bits above 2^53) and the count from capture 3 parsed as usize.  E2: provenance of the
+    three fields of the returned GroupHeader.  Replay: the real writer and reader on lengths around 2^53 and 2^64."""
+    import os
+    import sys
+    from common import VERIF, copy_repo, scratch_root
+    prog = ctx.lib
+    f = prog.method("TextReportIterator", "read_group_header")
+    seen = []
+
+    def s_parse(e, st, callee, args, dty):
+        m = re.search(r"parse::<(.+)>$", callee)
+        name = "parse[%s](%s)" % (m.group(1) if m else "?", summaries.canon(e, st, args[0]))
+        r = e.make_lazy(name, dty)
+        seen.append(name)
+        return r
+
+    def s_get(e, st, callee, args, dty):
+        idx = args[1].t if isinstance(args[1], Int) else None
+        i = z3.simplify(idx).as_long() if idx is not None and z3.is_bv_value(z3.simplify(idx)) else "?"
+        return EnumV("Option", "Some", 1, {0: Lazy("cap%s" % i, "regex::Match")})
+    extra = dict(optsum.SUMMARIES)
+    extra[r"(^|::)parse$"] = s_parse
+    extra[r"regex::Captures::get$|Captures(<.*>)?::get$"] = s_get
+    extra[r"regex::Match::as_str$|Match(<.*>)?::as_str$"] = lambda e, st, c, a, d: a[0]
+    extra[r"FileHash as (std::str::)?FromStr>::from_str$"] = summaries.pure("hash_from_str")
+    eng = oblig.engine(prog, unroll=0, inline=None, extra=extra)
+    ps = eng.run(f)
+    fi = prog.src.field_index
+
+    def prop(p):
+        if not (p.status == "return" and isinstance(p.result, EnumV) and p.result.variant == "Ok"):
+            return None
+        opt = p.result.fields.get(0)
+        if not (isinstance(opt, EnumV) and opt.variant == "Some"):
+            return None
+        gh = opt.fields.get(0)
+        if not isinstance(gh, Agg):
+            return z3.BoolVal(False)
+        st = mirsym.State()
+        st.mem, st.pc = p.mem, list(p.pc)
+        h = summaries.canon(eng, st, gh.fields.get(fi("GroupHeader", "file_hash")))
+        ln = summaries.canon(eng, st, gh.fields.get(fi("GroupHeader", "file_len")))
+        ct = summaries.canon(eng, st, gh.fields.get(fi("GroupHeader", "count")))
+        ok = (re.search(r"hash_from_str.?&?cap1", h) is not None and re.search(r"parse\[u64\].?&?cap2", ln) is not None
+              and re.search(r"parse\[usize\].?&?cap3", ct) is not None)
+        return z3.BoolVal(bool(ok))
+    o = oblig.check_paths(eng, ps, "read_group_header: hash = FileHash::from_str(capture 1), length = capture 2 parsed as u64, count = capture 3 parsed as usize",
+                          prop, oblig.fnames(eng), key="group-header:fields", allow=("return", "panic", "diverge"))
+    if o.verdict == "violated":
+        sys.path.insert(0, os.path.join(VERIF, "replay"))
+        try:
+            import native_driver
+            drv = native_driver.NativeDriver(copy_repo("native-src-gh"), scratch_root(), [("report", "report_test.rs", "verif_report")])
+            cases = [(2 ** 53 + 1, 0x1234, 2), (2 ** 53 - 1, 1, 1), (2 ** 64 - 2, 2 ** 128 - 1, 3), (9007199254740993, 7, 2), (1025, 2 ** 64, 12), (10 ** 15 + 7, 3, 2), (0, 0, 2)]
+            out = drv.run("report::verif_report::verif_report_driver", ["GH %d %d %d" % c for c in cases], "gh")
+            bad = []
+            for c, line in zip(cases, out):
+                m = re.search(r"len=(\d+) hash=([0-9a-f]+) n=(\d+)", line)
+                # (FileHash prints its bytes in memory order; the length and the number of paths are what this replay is about)
+                if not m or int(m.group(1)) != c[0] or int(m.group(3)) != c[2]:
+                    bad.append({"written": {"len": c[0], "hash": "%x" % c[1], "paths": c[2]}, "read_back": line})
+            if bad:
+                o.stats["traces_validated"] = len(bad)
+                o.cex = dict(o.cex or {}, native=bad[:3])
+                o.detail += "; replayed natively: a group of length %d is read back as `%s`" % (bad[0]["written"]["len"], bad[0]["read_back"])
+            else:
+                o.detail += "; the real writer/reader round-trips the probe lengths"
+        except Exception as ex:   # noqa
+            o.detail += "; native report driver failed: %s" % str(ex)[:200]
+    rep.add(o)
